@@ -309,6 +309,62 @@ func c17broker(c *core.Ctx) {
 	}
 }
 
+// blockPayload makes a QoS 0 PUBLISH on topic "big" exactly 8192 bytes long
+// (one read block): 1 type byte + 2 length bytes + 2 + 3 topic bytes + payload.
+const blockPayload = 8192 - 1 - 2 - 2 - 3
+
+// c17wrap: one publisher sends three 8000-byte messages back to back (its
+// incoming ring wraps while the first is being delivered); the subscriber must
+// receive them intact and in order.
+func c17wrap(c *core.Ctx) {
+	dev := 1
+	if c.Thorough() {
+		dev = 2
+	}
+	name := "broker 1 publisher x 3 back-to-back 8192-byte packets (incoming ring wraps during delivery)"
+	body := func() {
+		t := newTD()
+		p := t.connect("P", 0, 65535, false)
+		s := t.connect("S", 0, 65535, false)
+		t.subscribe("S", "big", 0)
+		if vsched.Failed() {
+			return
+		}
+		vsched.Mark()
+		var wire []byte
+		for k := 0; k < 3; k++ {
+			wire = append(wire, refcodec.Encode(bigPub("big", blockPayload, byte(k)))...)
+		}
+		p.rc.Conn.Write(wire)
+		t.settleExcept()
+		if s.rc.Bad != "" {
+			vsched.Failf("%s", s.rc.Bad)
+			return
+		}
+		k := 0
+		for _, pk := range s.rc.Take() {
+			if pk.Type != refcodec.PUBLISH {
+				continue
+			}
+			if string(pk.Topic) != "big" || string(pk.Payload) != big(blockPayload, byte(k)) {
+				vsched.Failf("message %d arrived with a corrupted topic or payload (or out of order)", k)
+				return
+			}
+			k++
+		}
+		if k != 3 {
+			vsched.Failf("%d of 3 messages arrived", k)
+			return
+		}
+		vsched.Logf("ok")
+	}
+	st := c.RunSched(explore.SchedOpts{Name: name, Bound: -1, DevBound: dev, Cache: true, UseMark: true, Body: body, MaxPoints: 100000, Check: schedCheck, Shard: c.Shard, NShards: c.NShards},
+		func(v *explore.Violation) string { return "C17 wrap :: " + violClass(v.Message) })
+	if st != nil && c.Shard == 0 {
+		c.Rep.Sample(map[string]interface{}{"scenario": name, "deviations": dev, "executions": st.Executions, "states": st.States})
+	}
+}
+
 // C17: whole packets, per-publisher order.
 func C17(c *core.Ctx) {
 	c.Rep.Bound = "SCHED: (narrow) 2-3 goroutines publishing 1-2 messages each through one service peer whose out ring was pre-rolled so that a packet wraps, all interleavings for one message per goroutine, <= 2 (quick) / 3 (thorough) preemptions otherwise; (broker) 2 raw publishers x 1-3 messages at QoS 0/1/2 to 2 subscribers through the real broker, every schedule that deviates from the default (run-until-blocked, lowest thread first) schedule at <= 1 (quick) / 2 (thorough) scheduling points, after a default-schedule set-up"
@@ -318,6 +374,10 @@ func C17(c *core.Ctx) {
 		return
 	}
 	c17broker(c)
+	if c.HasViolation() {
+		return
+	}
+	c17wrap(c)
 }
 
 func init() { core.Register("C17", C17) }
